@@ -476,7 +476,9 @@ func r13_5(c *Ctx, rule string) {
 		ex.From = call
 		ex.Assume = map[string]bool{"(" + key + "==nil)": false}
 		ex.Barrier = func(in ssa.Instruction, st *eng.State) bool { return c.P.IsCallTo(in, "param:xeh") }
-		ex.Target = func(in ssa.Instruction, st *eng.State) bool { return isReturn(in) || (in != ssa.Instruction(call) && strings.HasPrefix(c.calleeOf(in), sx)) }
+		ex.Target = func(in ssa.Instruction, st *eng.State) bool {
+			return isReturn(in) || (in != ssa.Instruction(call) && strings.HasPrefix(c.calleeOf(in), sx))
+		}
 		ex.StopAtTarget = true
 		h := ex.Run()
 		c.R.Check(len(h) == 0 && !ex.Exhausted, rule, c.siteName(call)+"/error-to-handler", c.pos(call), "a failure is handed to the xattr error handler", "a failure of "+n+" is not routed through the xattr error handler")
@@ -622,16 +624,16 @@ func r13_7(c *Ctx, rule string) {
 
 // copyFollowExceptions: following calls allowed in package copy.
 var copyFollowExceptions = map[string]followException{
-	"copy.MkdirAll/os.Stat":                        {reason: "the argument is an output of fs.RootPath or a parent prefix of one (R14.2): symlink-free by that library's contract"},
-	"copy.(*copier).prepareTargetDir/os.Stat":      {reason: "destPath is an output of fs.RootPath (R14.2)"},
-	"copy.(*copier).createParentDirs/os.Stat":      {reason: "the path of a source directory this copy is currently inside (copyDirectory is only entered for entries Lstat classified as directories)"},
-	"copy.(*copier).copyDirectory/os.ReadDir":      {reason: "source path classified as a directory by Lstat", check: guardedByStatIsDir},
-	"copy.copyFile/os.Open":                        {reason: "source path on the regular-file arm of copier.copy (Lstat said regular)"},
-	"copy.copyFile/os.Create":                      {reason: "the target was emptied first", check: callerEmptiedTarget},
-	"copy.(*copier).copyFileInfo/os.Chmod":         {reason: "skipped for symlinks", check: guardedByNotSymlink},
-	"copy.copyDirectoryOnly/os.Chmod":              {reason: "only when Lstat says the destination is a directory", check: guardedByLstatIsDir},
+	"copy.MkdirAll/os.Stat":                         {reason: "the argument is an output of fs.RootPath or a parent prefix of one (R14.2): symlink-free by that library's contract"},
+	"copy.(*copier).prepareTargetDir/os.Stat":       {reason: "destPath is an output of fs.RootPath (R14.2)"},
+	"copy.(*copier).createParentDirs/os.Stat":       {reason: "the path of a source directory this copy is currently inside (copyDirectory is only entered for entries Lstat classified as directories)"},
+	"copy.(*copier).copyDirectory/os.ReadDir":       {reason: "source path classified as a directory by Lstat", check: guardedByStatIsDir},
+	"copy.copyFile/os.Open":                         {reason: "source path on the regular-file arm of copier.copy (Lstat said regular)"},
+	"copy.copyFile/os.Create":                       {reason: "the target was emptied first", check: callerEmptiedTarget},
+	"copy.(*copier).copyFileInfo/os.Chmod":          {reason: "skipped for symlinks", check: guardedByNotSymlink},
+	"copy.copyDirectoryOnly/os.Chmod":               {reason: "only when Lstat says the destination is a directory", check: guardedByLstatIsDir},
 	"copy.copyFile/golang.org/x/sys/unix.Clonefile": {reason: "darwin: clone of the Lstat-regular source onto a target emptied first", check: callerEmptiedTarget},
-	"copy.copyFile/os.OpenFile":                    {reason: "the target was emptied first", check: callerEmptiedTarget},
+	"copy.copyFile/os.OpenFile":                     {reason: "the target was emptied first", check: callerEmptiedTarget},
 }
 
 func guardedByStatIsDir(c *Ctx, call ssa.CallInstruction) (bool, string) {
@@ -686,7 +688,7 @@ func callerEmptiedTarget(c *Ctx, call ssa.CallInstruction) (bool, string) {
 		return false, "copier.copy reaches copyFile without a checked ensureEmptyFileTarget"
 	}
 	for _, cs := range c.P.CallGraph().Callers(call.Parent()) {
-		if cs.Parent() != cp && !c.P.IsTestFile(cs.Pos()) {
+		if !c.P.IsTestFile(cs.Pos()) && !c.onlyIn(cs, c.name(cp)) {
 			return false, c.name(call.Parent()) + " is also called from " + c.name(cs.Parent())
 		}
 	}
